@@ -353,6 +353,9 @@ def annotation_variety(*key):
     if r.random() < 0.45:
         return None
     out = {k: copy.deepcopy(v) for k, v in _ANNOTATIONS.items() if r.random() < 0.45}
+    if "molecule_type" in out:
+        # GenBank and EMBL/INSDC spellings of double-stranded plasmid DNA
+        out["molecule_type"] = r.choice(["DNA", "ds-DNA", "genomic DNA", "other DNA", "unassigned DNA", "ds-DNA"])
     if r.random() < 0.6:
         out["topology"] = r.choice(["circular", "circular", "Circular", "CIRCULAR"])
     return out
